@@ -34,7 +34,7 @@ static void runCase(const std::string& id, const CaseSpec& cs, const std::vector
 {
     std::printf("case %s\n", id.c_str());
     std::fflush(stdout);
-    verif_case_watchdog(ops.size(), 5, 100);
+    verif_case_watchdog(ops.size(), 10, 40);
     std::string bytes;
     std::vector<std::string> intact, lines;
     std::string wr = c10_write(cs, bytes);
@@ -101,5 +101,6 @@ int main()
         else if (!line.empty()) ops.push_back(line);
     }
     flush();
-    return 0;
+    std::fflush(stdout);
+    _exit(0);      // not exit(): the static BlockAlloc of con::set frees its blocks through a memory manager that is already gone
 }
